@@ -138,20 +138,6 @@ def classify(user, q, out, base_names=()):
     if any(d['system'] and d['system'][0] and d['system'][1] not in all_names and d['system'][1] not in base_names
            for d in names.values()):
         return 'c15:extends-unknown-drops-descriptors'
-    def self_extending(n):
-        d = dict(user).get(n)
-        return d is not None and d['system'] and d['system'][0] and d['system'][1] == n
-    for k, d in names.items():
-        # k extends (possibly through other styles) a style that extends itself
-        seen, cur = {k}, d
-        while cur is not None and cur['system'] and cur['system'][0]:
-            t = cur['system'][1]
-            if t in seen:
-                break
-            if self_extending(t):
-                return 'c15:extends-self-extending-style-drops-descriptors'
-            seen.add(t)
-            cur = dict(user).get(t)
     if any(d['system'] and d['system'][0] for d in names.values()) and \
             sum(1 for d in names.values() if d['fallback']) >= 2:
         return 'c15:extends-ancestors-in-fallback-cycle-list'
@@ -363,7 +349,6 @@ WHAT = {
     'c15:extends-with-symbols-indexerror': 'IndexError in render_value for an extending style with an empty symbols descriptor',
     'c15:extends-with-symbols-accepted': '@counter-style with `system: extends` and symbols/additive-symbols is not rejected',
     'c15:extends-unknown-drops-descriptors': 'a style extending an undefined style loses its own descriptors (plain decimal is printed)',
-    'c15:extends-self-extending-style-drops-descriptors': 'a style extending a style that extends itself loses that style\'s descriptors (spec: the self-extending style counts as extending decimal and keeps its own descriptors)',
     'c15:style-named-like-a-system': 'a counter style whose name is a system keyword confuses the fallback cycle detection',
     'c15:extends-ancestors-in-fallback-cycle-list': 'the styles met while resolving `extends` count as already tried when following fallbacks (decimal is used instead of the fallback style)',
 }
